@@ -306,15 +306,16 @@ def pushRes (d : DState) (x : Res (St × Ref)) : DState × String :=
     let d := { d with env := #[] }
     ({ d with st := some s', env := env.push Ref.zero }, "panic " ++ e.toString)
 
-/-- names of collected nodes are retired in abstract mode (their bits may coincide with later results
-once the cell is reused; which cell that is depends on the allocation order) -/
+/-- names of collected nodes are retired (their bits may coincide with later results once the cell is
+reused; which cell that is depends on the allocation order) -/
 def retire (d : DState) (s' : St) : DState :=
-  if d.abs then
-    let env := d.env
-    let d := { d with env := #[] }
-    let env := env.map (fun r => if r.idx = 1 || Arr.rd s'.storage.occs r.idx then r else Ref.raw0)
-    { d with st := some s', env := env }
-  else { d with st := some s' }
+  -- (in both modes: a name is dead from the first collection that does not keep its node, as on the
+  -- harness side — a later reuse of the cell does not revive it, so a history recorded against a changed
+  -- tree and replayed on another one is refused at the same lines by both sides)
+  let env := d.env
+  let d := { d with env := #[] }
+  let env := env.map (fun r => if r.idx = 1 || Arr.rd s'.storage.occs r.idx then r else Ref.raw0)
+  { d with st := some s', env := env }
 
 /-- every operation that can change the manager goes through the checked dispatcher `exec`
 (`BddModel/Driver.lean`): a request whose precondition fails in the model's state is refused (`bad`);
